@@ -31,6 +31,7 @@ P == INSTANCE LsProtocol WITH
        Kinds <- {"req", "cancel", "notif", "resp", "initialize", "initialized", "shutdown", "exit", "any"},
        BadParams <- {"drop", "error"}, Panic <- {"silent", "error"},
        BadInit <- {"die", "error"}, PostShutdown <- {"die", "error"},
+       CancelDesign <- "flag",
        SyncWire <- FALSE
 
 pvars == <<phase, cstate, wire, nmsg, nreq, pending, st, outcome, tokens, cancelled, resp, how, hist>>
@@ -72,7 +73,13 @@ TCSend == /\ IsEv("csend")
           /\ l' = l + 1
 
 MainStep == P!SrvRecv \/ P!InitDone \/ P!SrvDrain
-TaskStep == \E id \in P!Ids : P!TaskFinish(id) \/ P!TaskPanic(id, "error")
+TaskStep == \E id \in P!Ids : P!TaskRespond(id) \/ P!TaskPanic(id, "error")
+\* The wrapper task removing its cancellation entry after it has answered is never visible in the stream,
+\* and with CancelDesign = "flag" its timing has no observable consequence (a cancel that still finds the
+\* entry only flags a token nobody reads any more).  It is therefore taken at once (Next), which keeps one
+\* explanation per stream; a second answer caused by a cancel in that window is what TDup reports.
+RemoveNow == (\E id \in P!Ids : P!TaskRemove(id)) /\ UNCHANGED l
+Eager == P!Responded # {} /\ phase # "dead"
 SrvStep == MainStep \/ TaskStep
 
 \* unlogged steps: the main loop reading / draining without answering, and tasks that died without
@@ -124,7 +131,8 @@ TExit == /\ IsEv("exit")
          /\ l' = l + 1
          /\ UNCHANGED pvars
 
-Next == TReset \/ TCSend \/ Silent \/ TSSend \/ TDup \/ TOrphan \/ TQuiesce \/ TExit
+Next == IF Eager THEN RemoveNow
+        ELSE TReset \/ TCSend \/ Silent \/ TSSend \/ TDup \/ TOrphan \/ TQuiesce \/ TExit
 
 Spec == Init /\ [][Next]_<<l, pvars>>
 \* the action history of LsProtocol is not needed to judge a log
